@@ -29,7 +29,7 @@ ASSUMPTIONS = [
     "application strings are plain str objects (a str subclass overriding __contains__/lower/capitalize is application code attacking itself: start_response's `in` / lower() tests consult the subclass; observed for the record in the evidence, not judged); header pairs may be tuples or lists, mutated or not after the call",
     "the header CONTAINER's iteration protocol (tuple, generator, one-shot iterator, list subclass / pair objects with impure __iter__) is outside Model/Task.v, whose start_response takes a pure list = the one snapshot the real start_response takes (fix b4f05b1); that the real code validates and sends the SAME snapshot is covered by K-task + the head-line search on scripted containers only",
     "str.capitalize / str.lower on arbitrary code points enter the theorems as Section variables with the hypothesis 'no CR, LF is produced from a string without CR, LF'; the hypothesis is tested on every run over all 0x110000 code points; the theorems are closed by a concrete instance that is exact below 256",
-    "server configuration strings (ident, the date produced by build_http_date) contain no CR/LF and are latin-1",
+    "the server configuration string ident contains no CR/LF and is latin-1 (for the date this is proved: C08_date_clean over Model/HttpDate.v, tied by K-date); time.gmtime is represented by the Gallina gmtime of Model/HttpDate.v (integer seconds >= 0)",
     "header names are RFC 9110 tokens (anything else is refused since /repo fix 4bd53ee), so a head line 'name: value' is read back by a client as that name and that value",
     "an application that survives a refusal is modelled as try: start_response(...) except BaseException: pass (ATryStart); in the model write() is available to every script (the real callable only after a call returned: the model admits more scripts than exist); a refused call is not atomic -- a status that passed its own checks stays in the task (C08_strict_status_refuted, C08_residue_instance; the int() of a Content-Length pair of the refused call stayed too until /repo fix 5926e3b): the search accepts such a status in the status line, never a refused string",
 ]
@@ -286,6 +286,40 @@ def run(ctx):
     rng = ctx.rng
 
     n_or, bad_or = oracle_hypotheses(runner) if runner is not None else (0, ["runner not built"])
+    # K-date: Model/HttpDate.v against the real waitress.utilities.build_http_date
+    import calendar
+    from waitress import utilities as wu
+    stamps = [0, 1, 59, 60, 3599, 3600, 86399, 86400, 86401, 68169599, 68169600, 951782399, 951782400, 951868800,
+              4107542399, 4107542400, 4107628800, 1709164800, 1709251199, 1709251200, 253402300799, 253402300800, 253402300801,
+              32503680000, 2147483647, 2147483648, 4294967295, 4294967296]
+    for y in (1970, 1971, 1972, 1999, 2000, 2001, 2024, 2026, 2100, 2101, 2400, 9999):
+        for mo in range(1, 13):
+            first = calendar.timegm((y, mo, 1, 0, 0, 0))
+            stamps += [first - 1, first, first + 86399] if first > 0 else [first, first + 86399]
+    stamps += [rng.randrange(0, 253402300800) for _ in range(20000 if ctx.tier == "thorough" else 2500)]
+    stamps += [rng.randrange(253402300800, 10 ** 12) for _ in range(200)]
+    date_answers = runner.query(["date %d" % t for t in stamps] + ["datetables"])
+    date_bad = []
+    for t, a in zip(stamps, date_answers):
+        try:
+            real = wu.build_http_date(t)
+        except Exception as e:  # noqa
+            real = "EXC:" + type(e).__name__
+        if a != hexb(real.encode("latin-1")):
+            date_bad.append((t, real, a))
+    tables_model = date_answers[-1]
+    tables_real = ",".join(hexb(w.encode()) for w in wu.weekdayname) + " " + ",".join(hexb(m.encode()) for m in wu.monthname[1:])
+    if tables_model != tables_real or wu.monthname[0] is not None:
+        date_bad.append(("tables", tables_real, tables_model))
+    for t, real, a in date_bad[:2]:
+        ctx.report("date:%s" % t, "build_http_date(%s): real %r, Model/HttpDate.v %s" % (t, real, a),
+                   {"kind": "date", "when": t, "expected": a, "observed": real, "failing_input_found": False,
+                    "note": "C08_date_clean / C08_date_shape speak for the code only while this correspondence holds"})
+    ctx.oblige("K-date: Model/HttpDate.v equals the real build_http_date on %d time stamps (epoch, every month boundary of 12 years incl. leap and century "
+               "years, 2038 / 2106 roll-overs, year 9999 and beyond, random) and the weekday / month name tables are the source's" % len(stamps),
+               not date_bad, "%d differences" % len(date_bad))
+    ctx.coverage["k_date"] = {"time_stamps": len(stamps), "differences": len(date_bad)}
+
     ctx.oblige("K-oracle: Python's case mapping never yields CR/LF (all 0x110000 code points, 5 mappings, in context); the concrete instance equals Python below 256",
                not bad_or, "; ".join(bad_or[:5]))
     for b in (bad_or[:3] if runner is not None else []):
